@@ -88,10 +88,12 @@ Fixpoint all_patterns (n : nat) : list (list sg) :=
   | S n' => flat_map (fun p => [SN :: p; SZ :: p; SP :: p]) (all_patterns n')
   end.
 
+(* (the harness searches with the box |z_i| <= 1; a certificate of optimum 0 found there never uses the
+   box, so it also certifies the cone problem stated here) *)
 Definition sg_bounds (s : sg) : ebound * ebound :=
-  match s with SP => (Fin 0, Fin 1) | SN => (Fin (-(1)), Fin 0) | SZ => (Fin 0, Fin 0) end.
+  match s with SP => (Fin 0, PosInf) | SN => (NegInf, Fin 0) | SZ => (Fin 0, Fin 0) end.
 Definition sg_coef (s : sg) : Q := match s with SP => 1 | SN => -(1) | SZ => 0 end.
-(* max sum |z_i| over null-space vectors in the box restricted to the sign pattern: 0 iff acyclic *)
+(* max sum |z_i| over null-space vectors in the cone of the sign pattern: 0 iff acyclic *)
 Definition acyc_lp (S : list vec) (p : list sg) : lp :=
   mkLP (map sg_bounds p) (map zero_row S) (map sg_coef p).
 Definition zeros (n : nat) : vec := repeat 0 n.
